@@ -846,11 +846,11 @@ _FWD_RULE = ("forward of 1-2 steps through a DeltaPlusCurrent synapse (spikes + 
 
 LEGS = [
     Leg(name="linear", run=run_linear, strategy=lambda tier: linear_case(tier),
-        quick=450, thorough=3000, quick_shards=4, thorough_shards=12, nt_floor=0.5,
+        quick=700, thorough=3500, quick_shards=4, thorough_shards=12, nt_floor=0.5,
         rule="dense/direct/lateral with input/output shapes of rank 1-3; " + _FWD_RULE
              + "; lateral additionally needs a non-zero diagonal in the assigned weight"),
     Leg(name="conv", run=run_conv, strategy=lambda tier: conv_case(tier),
-        quick=350, thorough=2500, quick_shards=6, thorough_shards=16, nt_floor=0.5,
+        quick=500, thorough=3000, quick_shards=6, thorough_shards=16, nt_floor=0.5,
         rule="conv2d geometry built from the output size backwards (kernel/stride/dilation 1-3, padding 0-2, "
              "unread trailing rows, non-square pairs); " + _FWD_RULE),
     Leg(name="convgrid", run=run_conv, enumerate=_grid_cases,
@@ -860,7 +860,7 @@ LEGS = [
              "stride/dilation <= 3, padding <= 2; fixed seeded dyadic data per geometry; " + _FWD_RULE,
         exhaustive_note="finite small-geometry grid enumerated completely (full product of the two axes)"),
     Leg(name="lateral", run=run_lateral, strategy=lambda tier: lateral_case(tier),
-        quick=300, thorough=2000, quick_shards=2, thorough_shards=8, nt_floor=0.4,
+        quick=500, thorough=2500, quick_shards=2, thorough_shards=8, nt_floor=0.4,
         rule="sequence of weight= / weight+= / delay= assignments, updater contributions, update(), STDP "
              "trainer steps on a LinearLateral; non-trivial: >= 1 assignment and >= 1 applied update whose "
              "value has a non-zero diagonal (and for delayed connections >= 1 such delay assignment/update)"),
